@@ -12,7 +12,7 @@ use serde_json::json;
 pub fn prop() -> Prop {
   Prop {
     id: "C04",
-    rule: "case = (operator in merge/zip/combine_latest/with_latest_from/take_until/skip_until/sample/buffer, local or _threads form (per-node flag in the local build, or the all-thread-safe build); both inputs hot (Subject or create-handle), optionally behind a chain of 0..2 C03 operators; two scripts of <= 4 events each (items, complete, error at any position, events after the terminal; one case in eight: 20..60 items per side interleaved in runs of 1..40); one interleaving of the two scripts chosen by the tape). \
+    rule: "case = (operator in merge/zip/combine_latest/with_latest_from/take_until/skip_until/sample/buffer, local or _threads form (per-node flag in the local build, or the all-thread-safe build); both inputs hot (Subject or create-handle), optionally behind a chain of 0..2 C03 operators; two scripts of <= 4 events each (items, complete, error at any position, events after the terminal; one case in eight: 20..60 (or 70 / 135 / 260 / 330) items per side interleaved in runs of 1..40 (or 66 / 130 / 300)); one interleaving of the two scripts chosen by the tape). \
            Oracle: delivered (step, notification) list == reference state machine for that operator over the merged timeline (buffer: notifier completion may flush+complete or be ignored). Non-trivial: both inputs emitted an item and the timeline alternates between the inputs at least once, or a terminal lies strictly inside the timeline. Distinct by hash(case). \
            Part `all-merges` enumerates every operator x all script pairs of <= 4+4 events over a 2-letter alphabet x every interleaving (thorough tier).",
     assumptions: &[
@@ -30,7 +30,7 @@ pub fn prop() -> Prop {
 fn gen_side_script(c: &mut dyn Choices, max: usize, alphabet: usize, offset: i64, post: bool) -> Vec<Ev> {
   if max > 8 {
     // long side: 20..60 items from a few picks, then maybe a terminal
-    let n = 20 + c.pick(41);
+    let n = pick_size(c, 20, 41, &[70, 135, 260, 330]);
     let mut out: Vec<Ev> = gen_long_items(c, n, 50).into_iter().map(|v| Ev::N(V::I(offset * 100 + to_i(&v)))).collect();
     match c.pick(3) {
       0 => {}
@@ -65,7 +65,7 @@ fn gen_merge(c: &mut dyn Choices, a: &[Ev], b: &[Ev]) -> Vec<Step> {
   let (mut i, mut j) = (0, 0);
   let mut out = vec![];
   let long = a.len() + b.len() > 16;
-  let (ra, rb) = if long { (1 + c.pick(40), 1 + c.pick(40)) } else { (1, 1) };
+  let (ra, rb) = if long { (pick_size(c, 1, 40, &[66, 130, 300]), pick_size(c, 1, 40, &[66, 130, 300])) } else { (1, 1) };
   let mut run = 0usize;
   let mut side_a = true;
   while i < a.len() || j < b.len() {
